@@ -62,7 +62,7 @@ def render_spec(spec):
     return f'-{spec[1]}'
 
 
-NEAR_MISSES = ['bytes= 1-2', 'bytes=1 -2', 'bytes=1- 2', 'bytes=+1-+3', 'bytes=1_0-2_0', 'bytes=١-٣', 'Bytes=0-1', 'BYTES=0-1',
+NEAR_MISSES = ['bytes=0-' + 'x' * 25, 'bytes=' + 'x' * 22 + '-', 'bytes=-' + '9' * 19 + 'x', 'bytes=0-' + '1' * 30 + 'e5', 'bytes= 1-2', 'bytes=1 -2', 'bytes=1- 2', 'bytes=+1-+3', 'bytes=1_0-2_0', 'bytes=١-٣', 'Bytes=0-1', 'BYTES=0-1',
                'xbytes=0-1', 'items=0-1', 'bytes=', 'bytes=-', 'bytes=--1', 'bytes=1-2-3', 'bytes=a-b', 'bytes=0x1-0x2', 'bytes0-1',
                '0-1', '', 'bytes=0-1bytes=2-3', 'bytes=1.0-2', 'bytes=-1-', 'bytes= -2', 'bytes=0-1;', 'bytes=,0-1', 'bytes=0-,',
                'bytes=-+2', 'bytes=- 2', 'bytes=１-２', 'bytes=0-1\t', 'bytes=\t0-1', 'bytes==0-1', 'none', 'bytes=0--1']
@@ -319,6 +319,13 @@ def misc_unit(ctx, unit):
                     header, spec = f'bytes={big}-', ('f', big)
                 elif t == 'suffix':
                     header, spec = f'bytes=-{big}', ('s', big)
+                elif rng.random() < 0.5:
+                    # positions written with many leading zeros (1*DIGIT): 20 to 45 characters long
+                    z = '0' * rng.randint(18, 40)
+                    a, b = sorted([rng.randint(0, n + 1), rng.randint(0, n + 1)])
+                    header, spec = rng.choice([(f'bytes={z}{a}-', ('f', a)), (f'bytes={a}-{z}{b}', ('fl', a, b)), (f'bytes=-{z}{b}', ('s', b)),
+                                               (f'bytes={z}{a}-{z}{b}', ('fl', a, b))])
+                    ctx.count('positions_of_20_and_more_characters')
                 else:
                     a = rng.randint(0, n + 1)
                     header, spec = f'bytes=000{a}-', ('f', a)
@@ -400,11 +407,51 @@ def _cond_site(ctx, unit, site, zone='UTC'):
         site.close()
 
 
+def interleaved(ctx, site, n):
+    """Two (three) ranged responses over the same file are started before the first is consumed, then consumed chunk by chunk in turn:
+    each delivers its own slice."""
+    name, data = site.file(n)
+    specs = [(0, n - 1), (5, n - 7), (n // 2, n - 1), (BUF - 3, BUF + 40)]
+    for combo in ((0, 1), (1, 0), (0, 2), (3, 0), (0, 1, 2)):
+        started = []
+        for k in combo:
+            a, b = specs[k]
+            captured = {}
+
+            def sr(status, headers, exc_info=None, captured=captured):
+                captured['status'], captured['headers'] = status, headers
+            it = site.app(make_environ('GET', '/f/' + name, headers={'Range': f'bytes={a}-{b}'}), sr)
+            started.append((a, b, captured, iter(it), it, []))
+        live = list(started)
+        while live:
+            for item in list(live):
+                try:
+                    item[5].append(next(item[3]))
+                except StopIteration:
+                    live.remove(item)
+                    if hasattr(item[4], 'close'):
+                        item[4].close()
+        ctx.count('responses_consumed_alternately', len(started))
+        ctx.case(('interleaved', n, combo), nontrivial=True)
+        for a, b, captured, _, _, chunks in started:
+            got = b''.join(chunks)
+            if not captured.get('status', '').startswith('206') or got != data[a:b + 1]:
+                ctx.violation('206-bytes-differ-from-content-range:responses-consumed-alternately',
+                              f'len={n} ranges {[specs[k] for k in combo]}: range {a}-{b} answered {captured.get("status")} with {len(got)} bytes '
+                              f'(first difference at {next((i for i, (x, y) in enumerate(zip(got, data[a:b + 1])) if x != y), min(len(got), b + 1 - a))})',
+                              {'unit': {'kind': 'note', 'len': n, 'ranges': [list(specs[k]) for k in combo]}})
+                break
+
+
 def big_unit(ctx, unit):
     site = Site()
     rng = ctx.rng
     try:
         for n in unit['lens']:
+            if n > BUF + 50:
+                interleaved(ctx, site, n)
+            if unit.get('only_interleaved'):
+                continue
             do_case(ctx, site, n, None, ('full',), 'big file, no range', both_methods=True)
             do_case(ctx, site, n, None, ('full',), 'big file, no range, server file_wrapper', both_methods=False, fw=True)
             ctx.count('big_file_with_server_file_wrapper')
@@ -427,7 +474,7 @@ def plan(tier, seed):
         units = [{'kind': 'grid', 'lens': [n]} for n in range(0, 13)]
         units += [{'kind': 'misc', 'lens': [0, 1, 2, 5, 12, 100], 'n': 1500}]
         units += [{'kind': 'cond', 'lens': [0, 1, 10]}]
-        units += [{'kind': 'big', 'lens': [BUF + 100]}]
+        units += [{'kind': 'big', 'lens': [BUF + 100]}, {'kind': 'big', 'lens': [2 * BUF + 5], 'only_interleaved': True}]
     else:
         units = [{'kind': 'grid', 'lens': [n]} for n in range(0, 41)]
         units += [{'kind': 'misc', 'lens': [0, 1, 2, 3, 5, 12, 40, 100, 5000], 'n': 8000, 'sub': i} for i in range(8)]
